@@ -60,24 +60,32 @@ def r2_stacking(idx, r):
     r.require(okz, "block-bottom-is-lower-block-top", f, node=zb[0].stmt if zb else loop, msg="for every block above the first, zbottom is the top of the linked lower block")
     dm = next((s for s in iter_stores(mod) if s.attr == "isDummyBlock"), None)
     env0 = single_assign_env(f.node)
-    r.require(dm is not None and norm(propagate(dm.value, env0)) == f"{ib} == self.linked.a.countBlocksWithFlags() - 1", "dummy-is-last-block", f, msg="the dummy block is the topmost block")
+    want_dummy = f"{ib} == self.linked.a.countBlocksWithFlags() - 1"
+    if dm is not None:
+        DUMMY, okd = "isDummyBlock", norm(propagate(dm.value, env0)) == want_dummy
+    else:
+        # canonical form (canon C13): the single-use flag is inlined into the test it names
+        tst = next((x.test for x in walk_local(mod) if isinstance(x, ast.If) and norm(propagate(x.test, env0)) in (want_dummy, f"not {want_dummy}", f"not ({want_dummy})")), None)
+        core = tst.operand if isinstance(tst, ast.UnaryOp) else tst
+        DUMMY, okd = (norm(core) if core is not None else "isDummyBlock"), core is not None
+    r.require(okd, "dummy-is-last-block", f, msg="the dummy block is the topmost block")
     zt = [s for s in iter_stores(mod) if s.chain == f"{b}.p.ztop"]
     okt = len(zt) == 1 and norm(zt[0].value) == "c.ztop"
     if okt:
         conds = [(norm(t), p) for t, p in path_conditions(mod, zt[0].stmt)]
-        okt = ("isDummyBlock", False) in conds and ("self.expansionData.isTargetComponent(c)", True) in conds and len(conds) == 2
+        okt = (DUMMY, False) in conds and ("self.expansionData.isTargetComponent(c)", True) in conds and len(conds) == 2
     r.require(okt, "block-top-from-target-component-only", f, node=zt[0].stmt if zt else loop, msg="a block's top moves only with its target component, and never for the top dummy block (assembly height fixed)")
     hs = [s for s in iter_stores(mod) if s.chain == f"{b}.p.height"]
     r.require(len(hs) == 2 and all(norm(s.value) == f"{b}.p.ztop - {b}.p.zbottom" for s in hs), "height-is-top-minus-bottom", f, msg="block height is always ztop - zbottom (dummy and non-dummy)")
     for s in hs:
         conds = [(norm(t), p) for t, p in path_conditions(mod, s.stmt)]
-        if ("isDummyBlock", False) in conds:
+        if (DUMMY, False) in conds:
             r.require(zt and s.stmt.lineno > zt[0].stmt.lineno, "height-after-top", f, node=s.stmt, msg="the height is recomputed after the top moved")
     # component stacking
     cz = {}
     for s in iter_stores(mod):
         if s.chain == "c.zbottom":
-            cz[norm(s.value)] = [(norm(t), p) for t, p in path_conditions(mod, s.stmt) if "isDummyBlock" not in norm(t)]
+            cz[norm(s.value)] = [(norm(t), p) for t, p in path_conditions(mod, s.stmt) if DUMMY not in norm(t)]
     want = {"0.0": [(f"{ib} == 0", True)],
             "self.linked.linkedComponents[c].lower.ztop": [(f"{ib} == 0", False), ("self.linked.linkedComponents[c].lower is not None", True)],
             f"self.linked.linkedBlocks[{b}].lower.p.ztop": [(f"{ib} == 0", False), ("self.linked.linkedComponents[c].lower is not None", False)]}
@@ -87,7 +95,7 @@ def r2_stacking(idx, r):
               msg="component top = its bottom + its new height, computed after both")
     # height check after the new height, mesh from tops, once per block
     chk = next((st for st in loop.body if isinstance(st, ast.Expr) and isinstance(st.value, ast.Call) and dotted(st.value.func) == "_checkBlockHeight"), None)
-    iff = next((st for st in loop.body if isinstance(st, ast.If) and "isDummyBlock" in norm(st.test)), None)
+    iff = next((st for st in loop.body if isinstance(st, ast.If) and DUMMY in norm(st.test)), None)
     r.require(chk is not None and iff is not None and loop.body.index(chk) > loop.body.index(iff) and norm(chk.value.args[0]) == b, "height-check-after-update", f, node=chk,
               msg="the block height check must run on the NEW height (after zbottom/ztop/height were updated), unconditionally, or a negative height is accepted silently")
     ap = next((st for st in loop.body if isinstance(st, ast.Expr) and isinstance(st.value, ast.Call) and norm(st.value.func) == "mesh.append"), None)
